@@ -36,7 +36,7 @@ Proof. exact history_transparent. Qed.
 Theorem C05_key_stands_for_one : forall (A : Type) (w : world A) P j rid idx src d,
   NoDup (world_ids w) -> In P (w_pipes w) ->
   nth_error (p_nodes P) j = Some (rid, SPersist) -> nth_error (p_parts P) idx = Some src ->
-  (wspec w (rid, Z.of_nat idx) d <-> d = plain_rev (rev_prefix j (p_nodes P)) src).
+  (wspec w (rid, Z.of_nat idx) d <-> d = plain_rev (Z.of_nat idx) (rev_prefix j (p_nodes P)) src).
 Proof. exact wspec_functional. Qed.
 Theorem C05_no_cross_read : forall (A : Type) (w : world A) h st,
   NoDup (world_ids w) -> wf_world w (length (s_mgrs st)) -> st_ok w st ->
@@ -195,6 +195,17 @@ Example part_after_persist :
   map (fun t => (fst (fst t), length (snd (fst t))))
       (run_history w (init_state Z [None]) [Act 0 3 ACollect; Act 0 3 ACollect])
   = [(RList [212], 5%nat); (RList [212], 1%nat)].
+Proof. vm_compute. reflexivity. Qed.
+(* a zipWithUniqueId-like function of the partition identity upstream of stacked persist marks, three
+   partitions: the cache-filling collect, the collect served from the cache and the persisted child agree
+   with the cache-free evaluation, and the ids are pairwise distinct *)
+Example index_stage_upstream_of_persist :
+  let w := World [Ctx 0 false]
+                 (fst (alloc_all 0 [(0%nat, [[10; 20]; [30; 40]; [50]],
+                        [SIdx (fun i e _ => e * 3 + i); SPersist; SPersist; SMap (fun x => x + 100)])])) in
+  map (fun t => fst (fst t))
+      (run_history w (init_state Z [None]) [Act 0 3 ACollect; Act 0 3 ACollect; Act 0 2 ACollect; Act 0 4 ACollect])
+  = [RList [0; 3; 1; 4; 2]; RList [0; 3; 1; 4; 2]; RList [0; 3; 1; 4; 2]; RList [100; 103; 101; 104; 102]].
 Proof. vm_compute. reflexivity. Qed.
 (* ids that are NOT fresh (what per-context counters would give): dataset 2 of a second pipeline reads
    the entry of dataset 2 of the first -- the hypothesis of C05_transparent_from_fresh_ids is needed *)
